@@ -143,6 +143,8 @@ void AbstractParameterAliasable::aliasParameters(map<string, string>& unparsedPa
       {
         if (!pl.hasParameter(it->second))
           throw ParameterNotFoundException("Unknown aliasing parameter", it->first + "->" + it->second);
+        // The source is itself a pending alias: leave this link for a later pass.
+        ++it;
         continue;
       }
       unique_ptr<Parameter> p2(pp->clone());
